@@ -567,6 +567,8 @@ func (c *Ctx) ruleFormatFollowsNotation() {
 				call, _ := ast.Unparen(rhs).(*ast.CallExpr)
 				if call != nil && callee(pk, call) == conv && as.Tok == token.DEFINE {
 					r.OkTrivial("C04-FORMAT-FOLLOWS-NOTATION", key, "defined by SchemaSerializeFormat", c.pos(as.Pos()))
+				} else if call != nil && as.Tok == token.DEFINE && c.formatNotationProducer(c.fnOf(callee(pk, call)), conv) >= 0 {
+					r.OkTrivial("C04-FORMAT-FOLLOWS-NOTATION", key, "defined by a helper that returns the format together with the notation it computed it from", c.pos(as.Pos()))
 				} else {
 					r.Bad("C04-FORMAT-FOLLOWS-NOTATION", key, "a serialise format is set by hand ("+exprString(rhs)+") instead of being the format of the notation: the schema object built for the body (chosen by the format) and the notation written for it no longer belong together", c.pos(as.Pos()))
 				}
@@ -601,9 +603,11 @@ func (c *Ctx) ruleFormatFollowsNotation() {
 				r.OkTrivial("C04-FORMAT-FOLLOWS-NOTATION", key, "both handed on from the parameters", c.pos(call.Pos()))
 				return true
 			}
-			dc, _ := definingCall(f, fa)
+			dc, kf := definingCall(f, fa)
 			if dc != nil && callee(pk, dc) == conv && len(dc.Args) == 1 && c.stableExpr(f, dc.Args[0], nil) == c.stableExpr(f, na, nil) {
 				r.Ok("C04-FORMAT-FOLLOWS-NOTATION", key, "the format is SchemaSerializeFormat of the notation that is passed", c.pos(call.Pos()))
+			} else if dn, kn := definingCall(f, na); dc != nil && dn == dc && c.formatNotationProducer(c.fnOf(callee(pk, dc)), conv) == kf*16+kn {
+				r.Ok("C04-FORMAT-FOLLOWS-NOTATION", key, "format and notation come from one call of a helper that computes the one from the other", c.pos(call.Pos()))
 			} else {
 				r.Bad("C04-FORMAT-FOLLOWS-NOTATION", key, "the format passed is not (only) SchemaSerializeFormat of the notation passed with it", c.pos(call.Pos()))
 			}
@@ -752,4 +756,51 @@ func (c *Ctx) ruleLazyErrors() {
 	if n == 0 {
 		r.Ok("C04-LAZY-ERRORS", "library", "the once-only code returns no fresh error", "")
 	}
+}
+
+// formatNotationProducer: g returns a serialise format and a schema notation such that on every return that carries a
+// format it is SchemaSerializeFormat(<the returned notation>). The result encodes the two result positions
+// (format*16 + notation); -1 when g is not of that kind.
+func (c *Ctx) formatNotationProducer(g *Fn, conv *types.Func) int {
+	if g == nil {
+		return -1
+	}
+	sig := g.Obj.Type().(*types.Signature)
+	kf, kn := -1, -1
+	for i := 0; i < sig.Results().Len(); i++ {
+		switch namedType(sig.Results().At(i).Type()) {
+		case prog.ModulePath + "/catalog.SerializeFormat":
+			kf = i
+		case prog.ModulePath + "/notation.SchemaNotation":
+			kn = i
+		}
+	}
+	if kf < 0 || kn < 0 {
+		return -1
+	}
+	ok, n := true, 0
+	ast.Inspect(g.Decl.Body, func(nd ast.Node) bool {
+		if _, isLit := nd.(*ast.FuncLit); isLit {
+			return false
+		}
+		ret, isRet := nd.(*ast.ReturnStmt)
+		if !isRet || len(ret.Results) != sig.Results().Len() {
+			return true
+		}
+		n++
+		// an error return: the last result is not nil, the format does not matter
+		last := ret.Results[len(ret.Results)-1]
+		if isErrorLike(g.Pkg.TypesInfo.TypeOf(last)) && !isNil(g.Pkg, last) {
+			return true
+		}
+		dc, _ := definingCall(g, ret.Results[kf])
+		if dc == nil || callee(g.Pkg, dc) != conv || len(dc.Args) != 1 || c.stableExpr(g, dc.Args[0], nil) != c.stableExpr(g, ret.Results[kn], nil) {
+			ok = false
+		}
+		return true
+	})
+	if !ok || n == 0 {
+		return -1
+	}
+	return kf*16 + kn
 }
